@@ -1,28 +1,9 @@
-(* RetrySys invariants, part 4 — convergence. Under the two exclusions that correspond to the known findings
-   (f1_free: a repair commit takes effect whenever its condition holds; f2_free: client values are not empty)
-   the newest version of every key is covered by a live write event (published, or still on its way to be
-   published or repaired). *)
+(* RetrySys invariants, part 4 — convergence: the newest version of every key is covered by a live write event
+   (published, or still on its way to be published or repaired). The queue node of an unknown write is dropped only
+   once the key's newest version is no longer that write. *)
 From KB Require Import Base.Cases Model.RetrySys Model.C09Cases
   Proofs.RetryBase Proofs.RetryInv1 Proofs.RetryInv2 Proofs.RetryProps Proofs.RetryInv3.
 Local Open Scope N_scope.
-
-Definition f1_free (s : state) (l : label) : Prop :=
-  match s_retry s, l with
-  | RCommit _ _ _, LRetry e => env_effective e = true
-  | _, _ => True
-  end.
-Definition f2_free (l : label) : Prop :=
-  match l with
-  | LInvoke _ op => match op_value op with Some v => is_empty v = false | None => True end
-  | _ => True
-  end.
-
-Inductive reach_x (r0 : N) : state -> Prop :=
-| rx_init : reach_x r0 (init_state r0)
-| rx_step s l : reach_x r0 s -> wf_label l -> f1_free s l -> f2_free l -> reach_x r0 (step s l).
-
-Lemma reach_x_reach r0 s : reach_x r0 s -> reach r0 s.
-Proof. induction 1; [apply reach_init|apply reach_step; assumption]. Qed.
 
 (* ---------- client values stay what the request carried ---------- *)
 Definition pc_ctx (p : pc) : option ctx := match p with PCommit _ c _ | PCreateGet c => Some c | _ => None end.
@@ -63,39 +44,16 @@ Proof.
   - apply triple_inv in H as [_ [<- _]]. discriminate.
 Qed.
 
-Definition opx_wf (op : wop) : Prop := match op_value op with Some v => is_empty v = false | None => True end.
-
-Definition pcx_inv (s : state) : Prop :=
-  forall t th, get_thread t (s_threads s) = Some th -> opx_wf (t_op th) /\ pcx_ok (t_op th) (t_pc th).
-
-Lemma pcx_inv_step s l : f2_free l -> pcx_inv s -> pcx_inv (step s l).
-Proof.
-  intros F K. destruct l as [t op|t e| |e|d]; unfold step, step_gen.
-  - destruct (get_thread t (s_threads s)) eqn:G; [exact K|].
-    intros t0 th0 G0. cbn [s_threads set_threads] in G0. gs G0; [|apply (K t0 th0 G0)].
-    injection G0 as <-. split; [exact F|]. intros c v H. discriminate.
-  - destruct (get_thread t (s_threads s)) as [th|] eqn:G; [|exact K].
-    destruct (thread_step s (t_op th) (t_pc th) e) as [[s' p'] u] eqn:TS.
-    destruct (thread_step_frame _ _ _ _ _ _ _ TS) as [_ [_ [_ [_ [_ [Ht _]]]]]].
-    intros t0 th0 G0. cbn [s_threads set_threads] in G0. rewrite Ht in G0. gs G0; [|apply (K t0 th0 G0)].
-    injection G0 as <-. cbn [t_op t_pc]. destruct (K t th G) as [K1 K2]. split; [exact K1|]. apply (thread_step_pcx _ _ _ _ _ _ _ TS K2).
-  - unfold seq_step. destruct (s_seq s); [destruct (s_slots s (s_committed s + 1)) as [ev|]; [destruct (e_valid ev); [|destruct (e_unc ev)]|]|..]; exact K.
-  - unfold retry_step. destruct (s_retry s) as [|node|node val|node val rev|node rev eo|node st]; try exact K.
-    + destruct (s_queue s) as [|[node t] rest]; [exact K|]. destruct (s_now s - t <? retry_interval); exact K.
-    + destruct e; try exact K. destruct (latest _) as [[modrev val]|]; [destruct (is_empty val || negb (modrev =? e_rev node))|]; exact K.
-    + destruct (commit _ _ e). exact K.
-  - exact K.
-Qed.
-
 (* ---------- the cover ---------- *)
 Definition head_not (s : state) (k : key) (r : N) : Prop :=
   forall r1 v1 rest, vers s k = (r1, v1) :: rest -> r1 <> r.
 
+(* the outcomes of a repair commit after which the node is dropped: success, or a failed compare *)
+Definition pops (eo : option err) : bool := match eo with None => true | Some er => is_cas er end.
 Definition popping (s : state) (node : wevent) : Prop :=
-  (exists rev eo, s_retry s = RDispatch node rev eo) \/ (exists st, s_retry s = RPop node st).
+  (exists rev eo, s_retry s = RDispatch node rev eo /\ pops eo = true) \/ (exists st, s_retry s = RPop node st).
 
 Record InvX (s : state) : Prop := {
-  x_nonempty : forall k r v, In (r, v) (vers s k) -> is_empty v = false;
   x_cover : forall k r v rest, vers s k = (r, v) :: rest ->
             exists ev, alive s ev /\ good ev /\ e_key ev = k /\ e_rev ev = r;
   x_pop : forall node, popping s node -> head_not s (e_key node) (e_rev node);
@@ -126,8 +84,7 @@ Lemma invx_frame s S :
   (forall ev, alive s ev -> alive S ev) -> (forall node, popping S node -> popping s node) ->
   InvX s -> InvX S.
 Proof.
-  intros H1 H2 H3 HA HP [A B C D]. constructor; unfold head_not, vers in *; rewrite ?H1, ?H2, ?H3.
-  - exact A.
+  intros H1 H2 H3 HA HP [B C D]. constructor; unfold head_not, vers in *; rewrite ?H1, ?H2, ?H3.
   - intros k r v rest E. destruct (B k r v rest E) as [ev [Hal Hx]]. exists ev. split; [apply HA; exact Hal|exact Hx].
   - intros node H. apply (C node (HP node H)).
   - exact D.
@@ -153,8 +110,7 @@ Lemma invx_frame2 s S :
   (forall ev, s_seq S = SeqMid ev -> s_seq s = SeqMid ev /\ forall t, In (ev, t) (s_queue s) -> exists t', In (ev, t') (s_queue S)) ->
   InvX s -> InvX S.
 Proof.
-  intros H1 HA HP HM [A B C D]. constructor; unfold head_not, vers in *; rewrite ?H1.
-  - exact A.
+  intros H1 HA HP HM [B C D]. constructor; unfold head_not, vers in *; rewrite ?H1.
   - intros k r v rest E. destruct (B k r v rest E) as [ev [Hal [Hg Hx]]]. exists ev. split; [apply HA; assumption|auto].
   - intros node H. apply (C node (HP node H)).
   - intros ev H. destruct (HM ev H) as [H2 H3]. destruct (D ev H2) as [[t Hin]|Hn]; [left; apply (H3 t Hin)|right; exact Hn].
@@ -190,8 +146,7 @@ Proof.
         -- apply al_slot. cbn. rewrite slot_set_other by exact E. exact H.
       * intros node H. exact H.
   - (* append *)
-    destruct I as [A B C D]. constructor; unfold head_not, vers in *; cbn [s_store s_seq s_queue set_seq set_queue].
-    + exact A.
+    destruct I as [B C D]. constructor; unfold head_not, vers in *; cbn [s_store s_seq s_queue set_seq set_queue].
     + intros k r v rest E. destruct (B k r v rest E) as [ev [Hal Hx]]. exists ev. split; [|exact Hx].
       al_split Hal; [apply al_ev|apply al_slot|(eapply al_thr; [exact G0|])|..|apply al_retry]; try exact Hal.
       * rewrite Q in Hal. apply al_seq. exact Hal.
@@ -199,8 +154,7 @@ Proof.
     + intros node H. apply (C node). exact H.
     + intros ev H. injection H as <-. left. exists (s_now s). apply in_or_app. right. left. reflexivity.
   - (* commit the held revision *)
-    destruct I as [A B C D]. constructor; unfold head_not, vers in *; cbn [s_store s_seq s_queue set_seq set_committed].
-    + exact A.
+    destruct I as [B C D]. constructor; unfold head_not, vers in *; cbn [s_store s_seq s_queue set_seq set_committed].
     + intros k r v rest E. destruct (B k r v rest E) as [ev [Hal [Hg [Hk Hr]]]]. exists ev. split; [|auto].
       al_split Hal; [apply al_ev|apply al_slot|(eapply al_thr; [exact G0|])|..|eapply al_q|apply al_retry]; try exact Hal.
       rewrite Q in Hal. injection Hal as <-. destruct (D ev0 Q) as [[t Hin]|Hn].
@@ -214,9 +168,9 @@ Lemma good_mk_ev r p vb k v eo : (eo = None \/ eo = Some (EUncertain false)) -> 
 Proof. intros [->| ->]; [left|right]; reflexivity. Qed.
 
 Lemma invx_thread_step s t e :
-  Inv1 s -> Inv2 s -> Inv3 s -> pcx_inv s -> env_ocas e = false -> InvX s -> InvX (step s (LThread t e)).
+  Inv1 s -> Inv2 s -> Inv3 s -> env_ocas e = false -> InvX s -> InvX (step s (LThread t e)).
 Proof.
-  intros I1 I2 I3 PX W I. unfold step, step_gen. destruct (get_thread t (s_threads s)) as [th|] eqn:G; [|exact I].
+  intros I1 I2 I3 W I. unfold step, step_gen. destruct (get_thread t (s_threads s)) as [th|] eqn:G; [|exact I].
   destruct (thread_step s (t_op th) (t_pc th) e) as [[s' p'] u] eqn:TS.
   destruct (thread_step_frame _ _ _ _ _ _ _ TS) as [Hc [Hq [Hr [Hqu [Hev [Ht _]]]]]].
   pose proof (thread_step_effect _ _ _ _ _ _ _ TS) as Eff.
@@ -252,18 +206,9 @@ Proof.
     - (* applied *)
       destruct Pok as [[Bk [Br [Bf [Bc Bv]]]] _].
       assert (Ppre : pc_pre (t_pc th) = Some (c_rev c)) by (rewrite PC; reflexivity).
-      destruct (PX t th G) as [Ox Px].
-      assert (Hne : is_empty (b_val b) = false).
-      { destruct (t_op th) as [k v|k v prev|k ex|r] eqn:OP; simpl in Bv, Ox.
-        - destruct Bv as [Bv _]. rewrite Bv. rewrite (Px c v); [exact Ox|rewrite PC; reflexivity|reflexivity].
-        - assert (Hv : b_val b = c_val c) by (destruct (prev =? 0); apply Bv).
-          rewrite Hv. rewrite (Px c v); [exact Ox|rewrite PC; reflexivity|reflexivity].
-        - rewrite Bv. reflexivity.
-        - exfalso. destruct (v_pc _ I2 t th G) as [_ K]. rewrite PC in K. destruct K as [_ [_ K]]. rewrite OP in K. discriminate. }
-      destruct I as [A B C D]. subst p'.
+      destruct I as [B C D]. subst p'.
       assert (Hstore : forall k, k_vers (s_store SS k) = k_vers (apply_batch (s_store s) b k)) by (intros k; unfold SS; cbn [s_store set_threads]; rewrite Hst; reflexivity).
       constructor; unfold head_not, vers in *.
-      + intros k r v H. rewrite Hstore in H. apply in_apply_batch in H as [[_ H]|H]; [injection H as _ ->; exact Hne|apply (A k r v H)].
       + intros k r v rest E. rewrite Hstore in E. destruct (N.eq_dec k (b_key b)) as [->|Ne].
         * rewrite apply_batch_same in E. cbn [k_vers] in E. injection E as <- <- <-.
           exists (mk_ev (c_rev c) (c_prev c) (op_verb (t_op th)) (op_key (t_op th)) (c_val c) eo).
@@ -274,7 +219,7 @@ Proof.
         destruct (N.eq_dec (e_key node) (b_key b)) as [Ek|Ne].
         * rewrite Ek, apply_batch_same in E. cbn [k_vers] in E. injection E as <- _ _.
           assert (An : alive s node).
-          { destruct (i_rhead _ I1 node) as [tq [rq Qu]]; [destruct H as [[? [? H]]|[? H]]; rewrite H; reflexivity|].
+          { destruct (i_rhead _ I1 node) as [tq [rq Qu]]; [destruct H as [[? [? [H _]]]|[? H]]; rewrite H; reflexivity|].
             eapply al_q. rewrite Qu. left. reflexivity. }
           intros E. apply (alive_not_thread_pre s node t th (c_rev c) I1 I3 An G Ppre). rewrite <- E. exact Br.
         * rewrite apply_batch_other in E by exact Ne. apply (C node H r1 v1 rest E).
@@ -287,17 +232,22 @@ Proof.
   all: apply invx_frame2 with (s := s); auto; unfold SS; cbn [s_store set_threads]; apply (thread_step_store _ _ _ _ _ _ _ TS); intros; discriminate.
 Qed.
 
-Lemma commit_effective_eo s b e s' eo :
-  commit s b e = (s', eo) -> (e = EnvOk \/ exists oc, e = EnvUnknown true oc) ->
-  cond_holds (b_cond b) (k_idx (s (b_key b))) = true -> eo = None \/ exists oc, eo = Some (EUncertain oc).
+(* a repair commit that reports a compare failure (under the engine contract: no bare abort, no unknown-outcome error
+   wrapping a compare failure) had no effect and its compare was false *)
+Lemma commit_cas_cond s b e s' er :
+  commit s b e = (s', Some er) -> is_cas er = true -> env_ocas e = false -> e <> EnvAbort ->
+  cond_holds (b_cond b) (k_idx (s (b_key b))) = false /\ s' = s.
 Proof.
-  unfold commit. intros H [->|[oc ->]] C; rewrite C in H; simpl in H; injection H as _ <-; eauto.
+  unfold commit. intros H C W NA. destruct e as [| | |a oc]; try contradiction.
+  - destruct (cond_holds _ _); [discriminate|]. injection H as <- _. auto.
+  - injection H as _ <-. discriminate.
+  - injection H as _ <-. simpl in C. subst oc. destruct a; discriminate.
 Qed.
 
 Lemma invx_retry s e :
-  Inv1 s -> Inv2 s -> Inv3 s -> f1_free s (LRetry e) -> InvX s -> InvX (step s (LRetry e)).
+  Inv1 s -> Inv2 s -> Inv3 s -> env_ocas e = false -> e <> EnvAbort -> InvX s -> InvX (step s (LRetry e)).
 Proof.
-  intros I1 I2 I3 F I. unfold step, step_gen, retry_step. unfold f1_free in F.
+  intros I1 I2 I3 W NA I. unfold step, step_gen, retry_step.
   destruct (s_retry s) as [|node|node val|node val rev|node rev eo|node st] eqn:R.
   - (* head / age test *)
     assert (X1 : forall x, InvX (set_rlast s x)).
@@ -307,12 +257,11 @@ Proof.
     destruct (s_queue s) as [|[node t] rest] eqn:Qu; [apply X1|]. destruct (s_now s - t <? retry_interval); [apply X1|].
     apply invx_frame2 with (s := s); try reflexivity; [| |intros ev H; split; [exact H|eauto]|exact I].
     + intros ev H _. apply alive_frame with (s := s); try reflexivity; [cbn; rewrite R; reflexivity|exact H].
-    + intros n [[? [? H]]|[? H]]; discriminate.
+    + intros n [[? [? [H _]]]|[? H]]; discriminate.
   - (* getter *)
     assert (X1 : forall pcx, retry_ev pcx = None -> (forall n, popping (set_retry s pcx) n -> n = node /\ head_not s (e_key node) (e_rev node)) ->
                  InvX (set_retry s pcx)).
-    { intros pcx He Hp. destruct I as [A B C D]. constructor; unfold head_not, vers in *; cbn [s_store s_seq s_queue set_retry].
-      - exact A.
+    { intros pcx He Hp. destruct I as [B C D]. constructor; unfold head_not, vers in *; cbn [s_store s_seq s_queue set_retry].
       - intros k r v rest E. destruct (B k r v rest E) as [ev [Hal Hx]]. exists ev. split; [|exact Hx].
         apply alive_frame with (s := s); try reflexivity; [cbn; rewrite R, He; reflexivity|exact Hal].
       - intros n H. destruct (Hp n H) as [-> Hn]. exact Hn.
@@ -320,44 +269,51 @@ Proof.
     assert (X2 : forall x, InvX (set_rlast (set_retry s RIdle) x)).
     { intros x. apply invx_frame2 with (s := s); try reflexivity; [| |intros ev H; split; [exact H|eauto]|exact I].
       - intros ev H _. apply alive_frame with (s := s); try reflexivity; [cbn; rewrite R; reflexivity|exact H].
-      - intros n [[? [? H]]|[? H]]; discriminate. }
+      - intros n [[? [? [H _]]]|[? H]]; discriminate. }
     destruct e; try apply X2.
     destruct (latest (k_vers (s_store s (e_key node)))) as [[modrev val]|] eqn:L.
-    + destruct (is_empty val || negb (modrev =? e_rev node)) eqn:Cn.
-      * apply X1; [reflexivity|]. intros n [[? [? H]]|[? H]]; [discriminate|]. injection H as <- _. split; [reflexivity|].
+    + destruct (negb (modrev =? e_rev node)) eqn:Cn.
+      * apply X1; [reflexivity|]. intros n [[? [? [H _]]]|[? H]]; [discriminate|]. injection H as <- _. split; [reflexivity|].
         intros r1 v1 rest E. pose proof (desc_latest _ r1 v1 rest (v_desc _ I2 (e_key node)) E) as L'. unfold vers in L'. rewrite L in L'. injection L' as -> ->.
-        apply orb_true_iff in Cn as [Cn|Cn].
-        -- exfalso. assert (is_empty v1 = false) by (apply (x_nonempty _ I (e_key node) r1 v1); rewrite E; left; reflexivity). congruence.
-        -- apply negb_true_iff in Cn. apply N.eqb_neq in Cn. exact Cn.
-      * apply X1; [reflexivity|]. intros n [[? [? H]]|[? H]]; discriminate.
-    + apply X1; [reflexivity|]. intros n [[? [? H]]|[? H]]; [discriminate|]. injection H as <- _. split; [reflexivity|].
+        apply negb_true_iff in Cn. apply N.eqb_neq in Cn. exact Cn.
+      * apply X1; [reflexivity|]. intros n [[? [? [H _]]]|[? H]]; discriminate.
+    + apply X1; [reflexivity|]. intros n [[? [? [H _]]]|[? H]]; [discriminate|]. injection H as <- _. split; [reflexivity|].
       intros r1 v1 rest E. apply latest_nil_iff in L. unfold vers in E. rewrite L in E. discriminate.
   - (* Deal *)
     apply invx_frame2 with (s := s); try reflexivity; [| |intros ev H; split; [exact H|eauto]|exact I].
     + intros ev H _. apply alive_frame with (s := s); try reflexivity; [cbn; rewrite R; reflexivity|exact H].
-    + intros n [[? [? H]]|[? H]]; discriminate.
-  - (* the repair commit, under an effective environment *)
+    + intros n [[? [? [H _]]]|[? H]]; discriminate.
+  - (* the repair commit: any outcome the engine contract allows *)
     set (bb := mk_batch (e_key node) (CIs (e_rev node, is_tomb val)) rev (is_tomb val) val).
     destruct (commit (s_store s) bb e) as [sto eo] eqn:Cm.
-    assert (Heff : e = EnvOk \/ exists oc, e = EnvUnknown true oc).
-    { destruct e as [| | |a oc]; try discriminate; [left; reflexivity|]. destruct a; [right; eauto|discriminate]. }
     pose proof (v_rval _ I2 node val (or_intror (ex_intro _ rev R))) as Hval.
     pose proof (v_rlt _ I2 node val rev R) as Hlt.
     assert (Alf : forall ev, alive s ev -> alive (set_retry (set_store s sto) (RDispatch node rev eo)) ev).
     { intros ev H. al_split H; [apply al_ev|apply al_slot|eapply al_thr; [exact G0|]|apply al_seq|eapply al_q|]; try exact H.
       rewrite R in H. discriminate. }
-    pose proof (commit_effective_eo _ _ _ _ _ Cm Heff) as Heo.
-    destruct (commit_effective _ _ _ _ _ Cm Heff) as [[Hc ->]|[Hc ->]].
+    destruct (commit_cases _ _ _ _ _ Cm) as [[-> Hne]|[-> [Hc Heo]]].
+    + (* no effect *)
+      assert (Hn : pops eo = true -> head_not s (e_key node) (e_rev node)).
+      { intros Hp. destruct eo as [er|]; [|contradiction]. simpl in Hp.
+        destruct (commit_cas_cond _ _ _ _ _ Cm Hp W NA) as [Hc _].
+        intros r1 v1 rest E E1. subst r1.
+        pose proof (v_idx _ I2 (e_key node)) as X. unfold idx_ok in X. unfold vers in E. rewrite E in X.
+        assert (v1 = val).
+        { apply (desc_unique _ (e_rev node) v1 val (v_desc _ I2 (e_key node))); [unfold vers; rewrite E; left; reflexivity|exact Hval]. }
+        subst v1. cbn [bb mk_batch b_cond b_key cond_holds] in Hc. rewrite X in Hc.
+        assert (idxval_eqb (e_rev node, is_tomb val) (e_rev node, is_tomb val) = true) by (apply idxval_eqb_eq; reflexivity). congruence. }
+      destruct I as [B C D]. constructor; unfold head_not, vers in *; cbn [s_store s_seq s_queue s_retry set_retry set_store].
+      * intros k r v rest E. destruct (B k r v rest E) as [ev [Hal Hx]]. exists ev. split; [apply Alf; exact Hal|exact Hx].
+      * intros n [[? [? [H Hp]]]|[? H]]; [|discriminate]. injection H as <- _ <-. apply Hn. exact Hp.
+      * exact D.
     + (* applied *)
-      specialize (Heo Hc).
-      destruct I as [A B C D]. constructor; unfold head_not, vers in *; cbn [s_store s_seq s_queue s_retry set_retry set_store].
-      * intros k r v H. apply in_apply_batch in H as [[_ H]|H]; [|apply (A k r v H)]. injection H as _ ->. apply (A _ _ _ Hval).
+      destruct I as [B C D]. constructor; unfold head_not, vers in *; cbn [s_store s_seq s_queue s_retry set_retry set_store].
       * intros k r v rest E. destruct (N.eq_dec k (e_key node)) as [->|Ne].
         -- change (e_key node) with (b_key bb) in E. rewrite apply_batch_same in E. cbn [k_vers bb mk_batch b_rev b_val] in E. injection E as <- <- <-.
            exists (mk_ev rev (e_prev node) (e_verb node) (e_key node) (e_val node) eo). split; [apply al_retry; reflexivity|].
-           split; [|split; reflexivity]. destruct Heo as [->|[oc ->]]; [left|right]; reflexivity.
+           split; [|split; reflexivity]. destruct Heo as [->|[oc [-> _]]]; [left|right]; reflexivity.
         -- rewrite apply_batch_other in E by exact Ne. destruct (B k r v rest E) as [ev [Hal Hx]]. exists ev. split; [apply Alf; exact Hal|exact Hx].
-      * intros n [[? [? H]]|[? H]]; [|discriminate]. injection H as <- _ _. intros r1 v1 rest E.
+      * intros n [[? [? [H _]]]|[? H]]; [|discriminate]. injection H as <- _ _. intros r1 v1 rest E.
         change (e_key node) with (b_key bb) in E. rewrite apply_batch_same in E. cbn [k_vers bb mk_batch b_rev] in E. injection E as <- _ _. lia.
       * intros ev H. destruct (D ev H) as [Hin|Hn]; [left; exact Hin|right].
         intros r1 v1 rest E. destruct (N.eq_dec (e_key ev) (e_key node)) as [Ek|Ne].
@@ -365,56 +321,53 @@ Proof.
            assert (An : alive s ev) by (apply al_seq; rewrite H; reflexivity).
            intros E. apply (alive_not_retry_pre s ev node val rev I1 I3 An R). symmetry. exact E.
         -- rewrite apply_batch_other in E by exact Ne. apply (Hn r1 v1 rest E).
-    + (* the compare failed: somebody else has written the key since the getter read it *)
-      assert (Hn : head_not s (e_key node) (e_rev node)).
-      { intros r1 v1 rest E E1. subst r1.
-        pose proof (v_idx _ I2 (e_key node)) as X. unfold idx_ok in X. unfold vers in E. rewrite E in X.
-        assert (v1 = val).
-        { apply (desc_unique _ (e_rev node) v1 val (v_desc _ I2 (e_key node))); [unfold vers; rewrite E; left; reflexivity|exact Hval]. }
-        subst v1. cbn [bb mk_batch b_cond b_key cond_holds] in Hc. rewrite X in Hc.
-        assert (idxval_eqb (e_rev node, is_tomb val) (e_rev node, is_tomb val) = true) by (apply idxval_eqb_eq; reflexivity). congruence. }
-      destruct I as [A B C D]. constructor; unfold head_not, vers in *; cbn [s_store s_seq s_queue s_retry set_retry set_store].
-      * exact A.
-      * intros k r v rest E. destruct (B k r v rest E) as [ev [Hal Hx]]. exists ev. split; [apply Alf; exact Hal|exact Hx].
-      * intros n [[? [? H]]|[? H]]; [|discriminate]. injection H as <- _ _. exact Hn.
-      * exact D.
-  - (* dispatch *)
-    apply invx_frame2 with (s := s); try reflexivity; [| |intros ev H; split; [exact H|eauto]|exact I].
-    + intros ev H _. al_split H; [apply al_ev|..|eapply al_thr; [exact G0|]|apply al_seq|eapply al_q|]; try exact H.
-      * apply al_slot. cbn [s_slots set_retry set_slots].
+  - (* dispatch: the event goes to its slot; the node is popped next, or kept *)
+    set (s1 := set_slots s (slot_set (s_slots s) rev (Some (mk_ev rev (e_prev node) (e_verb node) (e_key node) (e_val node) eo)))).
+    assert (Alf : forall S0, s_events S0 = s_events s1 -> s_slots S0 = s_slots s1 -> s_threads S0 = s_threads s1 -> s_seq S0 = s_seq s1 ->
+                  s_queue S0 = s_queue s1 -> forall ev, alive s ev -> alive S0 ev).
+    { intros S0 H1 H2 H3 H4 H5 ev H. al_split H.
+      - apply al_ev. rewrite H1. exact H.
+      - apply al_slot. rewrite H2. cbn [s1 s_slots set_slots].
         destruct (i_retry _ I1 rev) as [_ [Hsl _]]; [rewrite R; reflexivity|].
         rewrite slot_set_other; [exact H|]. intros E. rewrite E in H. congruence.
-      * rewrite R in H. cbn in H. injection H as <-. apply al_slot. cbn [s_slots set_retry set_slots mk_ev e_rev]. apply slot_set_same.
-    + intros n [[? [? H]]|[? H]]; [discriminate|]. injection H as <- _. left. rewrite R. eauto.
+      - eapply al_thr; [rewrite H3; exact G0|exact H].
+      - apply al_seq. rewrite H4. exact H.
+      - eapply al_q. rewrite H5. exact H.
+      - rewrite R in H. cbn in H. injection H as <-. apply al_slot. rewrite H2. cbn [s1 s_slots set_slots mk_ev e_rev]. apply slot_set_same. }
+    destruct eo as [er|]; [destruct (is_cas er) eqn:Ec|].
+    + apply invx_frame2 with (s := s); try reflexivity; [| |intros ev H; split; [exact H|eauto]|exact I].
+      * intros ev H _. apply Alf; try reflexivity. exact H.
+      * intros n [[? [? [H _]]]|[? H]]; [discriminate|]. injection H as <- _. left. rewrite R. exists rev, (Some er). split; [reflexivity|exact Ec].
+    + apply invx_frame2 with (s := s); try reflexivity; [| |intros ev H; split; [exact H|eauto]|exact I].
+      * intros ev H _. apply Alf; try reflexivity. exact H.
+      * intros n [[? [? [H _]]]|[? H]]; discriminate.
+    + apply invx_frame2 with (s := s); try reflexivity; [| |intros ev H; split; [exact H|eauto]|exact I].
+      * intros ev H _. apply Alf; try reflexivity. exact H.
+      * intros n [[? [? [H _]]]|[? H]]; [discriminate|]. injection H as <- _. left. rewrite R. exists rev, None. split; reflexivity.
   - (* pop *)
     destruct (i_rhead _ I1 node) as [tq [rest Qu]]; [rewrite R; reflexivity|].
     assert (Hn : head_not s (e_key node) (e_rev node)) by (apply (x_pop _ I node); right; rewrite R; eauto).
-    destruct I as [A B C D]. rewrite Qu. cbn [pop_head].
+    destruct I as [B C D]. rewrite Qu. cbn [pop_head].
     constructor; unfold head_not, vers in *; cbn [s_store s_seq s_queue s_retry set_retry set_queue set_rlast].
-    + exact A.
     + intros k r v rest0 E. destruct (B k r v rest0 E) as [ev [Hal [Hg [Hk Hr]]]]. exists ev. split; [|auto].
       al_split Hal; [apply al_ev|apply al_slot|eapply al_thr; [exact G0|]|apply al_seq|..]; try exact Hal.
       * rewrite Qu in Hal. destruct Hal as [Hal|Hal]; [|eapply al_q; exact Hal].
         injection Hal as <- _. exfalso. subst k r. apply (Hn _ _ _ E). reflexivity.
       * rewrite R in Hal. discriminate.
-    + intros n [[? [? H]]|[? H]]; discriminate.
+    + intros n [[? [? [H _]]]|[? H]]; discriminate.
     + intros ev H. destruct (D ev H) as [[t Hin]|Hn']; [|right; exact Hn'].
       rewrite Qu in Hin. destruct Hin as [Hin|Hin]; [|left; eauto]. injection Hin as <- _. right. exact Hn.
 Qed.
 
-Lemma reach_x_pcx r0 s : reach_x r0 s -> pcx_inv s.
-Proof. induction 1 as [|s l R IH W F1 F2]; [intros ? ? H; discriminate|apply pcx_inv_step; assumption]. Qed.
-
-Lemma reach_x_invx r0 s : reach_x r0 s -> InvX s.
+Lemma reach_invx r0 s : reach r0 s -> InvX s.
 Proof.
-  induction 1 as [|s l R IH W F1 F2]; [apply invx_init|].
-  pose proof (reach_x_reach r0 s R) as R'.
-  pose proof (reach_inv1 r0 s R') as I1. pose proof (reach_inv2 r0 s R') as I2. pose proof (reach_inv3 r0 s R') as I3.
+  induction 1 as [|s l R IH W]; [apply invx_init|].
+  pose proof (reach_inv1 r0 s R) as I1. pose proof (reach_inv2 r0 s R) as I2. pose proof (reach_inv3 r0 s R) as I3.
   destruct l as [t op|t e| |e|d]; simpl in W.
   - apply invx_invoke; exact IH.
-  - apply invx_thread_step; try assumption. apply (reach_x_pcx r0); exact R.
+  - apply invx_thread_step; assumption.
   - apply invx_seq; assumption.
-  - apply invx_retry; assumption.
+  - destruct W as [W1 W2]. apply invx_retry; assumption.
   - apply invx_tick; exact IH.
 Qed.
 
@@ -522,71 +475,34 @@ Proof.
       * intros ev' H1 H2. apply events_after_in in H1 as [H1 H3]. specialize (Hmax ev' H1 H2). lia.
 Qed.
 
-(* ---------- statements over label lists ---------- *)
-Fixpoint labels_ok (s : state) (ls : list label) : Prop :=
-  match ls with
-  | [] => True
-  | l :: ls' => wf_label l /\ f1_free s l /\ f2_free l /\ labels_ok (step s l) ls'
-  end.
-
-Lemma labels_ok_reach r0 ls : forall s, reach_x r0 s -> labels_ok s ls -> reach_x r0 (run s ls).
-Proof.
-  induction ls as [|l ls IH]; intros s R H; [exact R|]. destruct H as [W [F1 [F2 H]]]. simpl. apply IH; [|exact H].
-  apply rx_step; assumption.
-Qed.
-
-Theorem converges_except_findings r0 ls :
-  labels_ok (init_state r0) ls -> let s := run (init_state r0) ls in
+(* ---------- the statement over label lists ---------- *)
+Theorem converges r0 ls :
+  Forall wf_label ls -> let s := run (init_state r0) ls in
   quiescentb s = true -> forall R0 k, converged_at s R0 k.
 Proof.
-  intros H s Q R0 k. pose proof (labels_ok_reach r0 ls _ (rx_init r0) H) as RX. fold s in RX.
-  pose proof (reach_x_reach r0 s RX) as R.
-  apply converges_core; [apply (reach_inv1 r0)|apply (reach_inv2 r0)|apply (reach_inv3 r0)|apply (reach_x_invx r0)|apply quiescentb_spec]; assumption.
+  intros H s Q R0 k. pose proof (reach_of_run r0 ls H) as R. fold s in R.
+  apply converges_core; [apply (reach_inv1 r0)|apply (reach_inv2 r0)|apply (reach_inv3 r0)|apply (reach_invx r0)|apply quiescentb_spec]; assumption.
 Qed.
 
-(* the exclusions are about labels only where they must be: a label list without unknown/failed repair commits and
-   without empty values satisfies them in every state *)
-Definition label_plain (l : label) : Prop :=
-  wf_label l /\ f2_free l /\ match l with LRetry e => env_effective e = true | _ => True end.
-
-Lemma labels_plain_ok ls : Forall label_plain ls -> forall s, labels_ok s ls.
-Proof.
-  induction 1 as [|l ls [W [F2 F1]] _ IH]; intros s; [exact I|]. simpl. split; [exact W|]. split; [|split; [exact F2|apply IH]].
-  unfold f1_free. destruct (s_retry s); try exact I. destruct l; try exact I. exact F1.
-Qed.
-
-(* executable form of the hypotheses (used by the examples and by the correspondence oracle's soundness) *)
+(* executable form of the hypothesis (used by the examples) *)
 Definition wf_labelb (l : label) : bool :=
   match l with
   | LInvoke _ op => match op_value op with Some v => negb (is_tomb v) | None => true end
-  | LThread _ e | LRetry e => negb (env_ocas e)
+  | LThread _ e => negb (env_ocas e)
+  | LRetry e => negb (env_ocas e) && match e with EnvAbort => false | _ => true end
   | _ => true
-  end.
-Definition f1_freeb (s : state) (l : label) : bool :=
-  match s_retry s, l with RCommit _ _ _, LRetry e => env_effective e | _, _ => true end.
-Definition f2_freeb (l : label) : bool :=
-  match l with LInvoke _ op => match op_value op with Some v => negb (is_empty v) | None => true end | _ => true end.
-Fixpoint labels_okb (s : state) (ls : list label) : bool :=
-  match ls with
-  | [] => true
-  | l :: ls' => wf_labelb l && f1_freeb s l && f2_freeb l && labels_okb (step s l) ls'
   end.
 
 Lemma wf_labelb_spec l : wf_labelb l = true -> wf_label l.
 Proof.
-  destruct l; simpl; auto; try (intros H; apply negb_true_iff in H; exact H).
-  unfold op_wf. destruct (op_value op); auto. intros H. apply negb_true_iff in H. exact H.
+  destruct l; simpl; auto.
+  - unfold op_wf. destruct (op_value op); auto. intros H. apply negb_true_iff in H. exact H.
+  - intros H. apply negb_true_iff in H. exact H.
+  - intros H. apply andb_true_iff in H as [H1 H2]. apply negb_true_iff in H1. split; [exact H1|]. intros ->. discriminate.
 Qed.
 
-Lemma labels_okb_spec ls : forall s, labels_okb s ls = true -> labels_ok s ls.
+Lemma wf_labelsb_spec ls : forallb wf_labelb ls = true -> Forall wf_label ls.
 Proof.
-  induction ls as [|l ls IH]; intros s H; [exact I|]. simpl in H. rewrite !andb_true_iff in H. destruct H as [[[H1 H2] H3] H4].
-  simpl. split; [apply wf_labelb_spec; exact H1|]. split; [|split; [|apply IH; exact H4]].
-  - unfold f1_free, f1_freeb in *. destruct (s_retry s); auto. destruct l; auto.
-  - unfold f2_free, f2_freeb in *. destruct l; auto. destruct (op_value op); auto. apply negb_true_iff in H3. exact H3.
+  induction ls as [|l ls IH]; simpl; intros H; [constructor|]. apply andb_true_iff in H as [H1 H2].
+  constructor; [apply wf_labelb_spec; exact H1|apply IH; exact H2].
 Qed.
-
-Theorem converges_plain r0 ls :
-  Forall label_plain ls -> let s := run (init_state r0) ls in
-  quiescentb s = true -> forall R0 k, converged_at s R0 k.
-Proof. intros H. apply converges_except_findings. apply labels_plain_ok. exact H. Qed.
